@@ -101,6 +101,10 @@ def cmp_cond(op, a, b):
     if op in ('>', '>='):
         d = -d
         op = {'>': '<', '>=': '<='}[op]
+    if d.is_const():
+        # a comparison of constants is decided (`if iz == 0` with iz = 0)
+        v = d.const_value()
+        return ('const', {'==': v == 0, '!=': v != 0, '<': v < 0, '<=': v <= 0}[op])
     d = _pos_scale(d)
     if op in ('==', '!='):
         # sign-normalise
